@@ -194,23 +194,46 @@ def resolve_after_add(ctx, seed):
         m.st((a * z) @ x >= 1 if False else x[0] + x[1] >= 1 + a @ z, x >= -4, x <= 6)
         return x, z
 
+    kind2 = str(r.choice(['var+rows', 'exp-only', 'log-only', 'entropy-only', 'norm-only', 'bound-only', 'kl-only']))
+
     def stage2(m, x, z):
-        w = m.dvar(vtype='C')
-        m.st(w >= x[0] - 2 * z[0], w <= 9, x[1] >= 0.5 * w - 3)
-        return w
-    case = {"resolve_seed": seed}
+        # what is declared after the first solve: several kinds, each alone (so that only its own st() branch marks the caches stale)
+        if kind2 == 'var+rows':
+            w = m.dvar(vtype='C')
+            m.st(w >= x[0] - 2 * z[0], w <= 9, x[1] >= 0.5 * w - 3)
+        elif kind2 == 'exp-only':
+            m.st(rso.exp(x[0] - 2) <= 0.5)
+        elif kind2 == 'log-only':
+            m.st(rso.log(x[1] + 5) >= 1.7)
+        elif kind2 == 'entropy-only':
+            m.st(rso.entropy(x + 5) >= -28.0)
+        elif kind2 == 'norm-only':
+            m.st(rso.norm(x, 2) <= 1.2)
+        elif kind2 == 'kl-only':
+            m.st(rso.kldiv((x + 5) * 0.1, np.array([0.5, 0.5]), 0.9))
+        else:
+            m.st(x[0] <= 0.25)
+    case = {"resolve_seed": seed, "added_after_first_solve": kind2}
+    def sol(m):
+        try:
+            return C.solve_model(m)
+        except RuntimeError:
+            return None
     try:
         mA = ro.Model(); xA, zA = stage1(mA)
-        with C.quiet():
-            C.solve_model(mA)
+        sol(mA)
         stage2(mA, xA, zA)
-        vA = C.solve_model(mA)
+        vA = sol(mA)
         mB = ro.Model(); xB, zB = stage1(mB); stage2(mB, xB, zB)
-        vB = C.solve_model(mB)
+        vB = sol(mB)
     except C.SkipCase:
         ctx.count('skipped'); return
     except Exception as ex:
         ctx.hit('resolve-after-add-raises:' + type(ex).__name__, {"error": str(ex)[:200]}, case); return
+    if (vA is None) != (vB is None):
+        ctx.hit('resolve-after-add-differs', {"incremental": vA, "from_scratch": vB}, case); return
+    if vA is None:
+        ctx.count('resolve:both-infeasible'); return
     if abs(vA - vB) > 1e-5 * (1 + abs(vB)):
         ctx.hit('resolve-after-add-differs', {"incremental": float(vA), "from_scratch": float(vB)}, case)
     else:
@@ -248,9 +271,76 @@ def expression_reuse(ctx):
         ctx.count('reuse:agree')
 
 
+def direct_layers(ctx, seed):
+    """the lp / socp / gcp modelling layers used directly (rsome.lp.Model, rsome.socp.Model, rsome.gcp.Model): declare, formulate,
+    declare one more constraint of a single kind, formulate again == from scratch"""
+    import rsome as rso
+    from rsome import lp as lpm, socp as socpm, gcp as gcpm
+    r = np.random.default_rng(seed)
+    layer = str(r.choice(['lp', 'socp', 'gcp', 'gcp']))
+    kinds = {'lp': ['row', 'bound', 'abs'], 'socp': ['row', 'bound', 'norm2', 'sumsqr'],
+             'gcp': ['row', 'bound', 'norm2', 'exp', 'log', 'entropy', 'kl', 'expcone']}[layer]
+    first = [str(v) for v in r.choice(kinds, int(r.integers(1, 3)))]
+    second = str(r.choice(kinds))
+    ctx.search_cases += 1; ctx.evaluations += 1
+    case = {"layer": layer, "first": first, "then": second, "seed": seed}
+
+    def add(m, x, t, kind, i):
+        if kind == 'row':
+            m.st(x[0] + 2 * x[1] <= 3 + i)
+        elif kind == 'bound':
+            m.st(x[1] <= 2.5 - 0.5 * i)
+        elif kind == 'abs':
+            m.st(abs(x[0] - 1) <= 2 + i)
+        elif kind == 'norm2':
+            m.st(rso.norm(x, 2) <= 3 + i)
+        elif kind == 'sumsqr':
+            m.st(rso.sumsqr(x) <= 8 + i)
+        elif kind == 'exp':
+            m.st(rso.exp(x[0]) <= t + i)
+        elif kind == 'log':
+            m.st(rso.log(x[1] + 4) >= 0.5 + 0.25 * i)
+        elif kind == 'entropy':
+            m.st(rso.entropy(x + 4) >= -30 + i)
+        elif kind == 'kl':
+            m.st(rso.kldiv((x + 4) * 0.1, np.array([0.5, 0.5]), 1.0 + i))
+        elif kind == 'expcone':
+            m.st(rso.expcone(t + 3, x[0], 1.0 + i))
+
+    def fresh():
+        M = {'lp': lpm, 'socp': socpm, 'gcp': gcpm}[layer].Model()
+        x = M.dvar(2); t = M.dvar()
+        M.min(t - x[0]); M.st([x >= -3, x <= 3, t >= -5, t <= 50])
+        return M, x, t
+    try:
+        with C.quiet():
+            A, x, t = fresh()
+            for i, k in enumerate(first):
+                add(A, x, t, k, i)
+            A.do_math(); A.do_math(primal=False)
+            add(A, x, t, second, 2)
+            pa = C.prog_json(A.do_math()); da = C.prog_json(A.do_math(primal=False))
+            B, xb, tb = fresh()
+            for i, k in enumerate(first):
+                add(B, xb, tb, k, i)
+            add(B, xb, tb, second, 2)
+            pb = C.prog_json(B.do_math()); db = C.prog_json(B.do_math(primal=False))
+    except Exception as ex:
+        ctx.count('direct-layer-error:' + type(ex).__name__); return
+    keys = C.PROG_KEYS + ('qmat', 'xmat', 'vtype')
+    ctx.nontriv(case)
+    if any(pa[k] != pb[k] for k in keys) or any(da[k] != db[k] for k in keys):
+        ctx.hit('incremental-formulation-differs:' + layer, {"primal_fields": [k for k in keys if pa[k] != pb[k]], "dual_fields": [k for k in keys if da[k] != db[k]],
+                                                              "shape_incremental": [pa['nr'], pa['nc']], "shape_scratch": [pb['nr'], pb['nc']]}, case)
+    else:
+        ctx.count('direct-layer:identical')
+
+
 def run(ctx):
+    for k in range(ctx.n(40, 600)):
+        direct_layers(ctx, int(ctx.rng.integers(2 ** 31)))
     expression_reuse(ctx)
-    for k in range(ctx.n(6, 60)):
+    for k in range(ctx.n(24, 200)):
         resolve_after_add(ctx, int(ctx.rng.integers(2 ** 31)))
     for k in range(ctx.n(60, 1200)):
         r, seed = c01.O_sub(ctx)
